@@ -92,6 +92,7 @@ func keyOnly(x int, it shed.Item) shed.Item {
 var alphabet = []byte{0x00, 0x01, 0x02, 0x03, 0x04, 0x05, 0xff, 'a'}
 
 type pools struct {
+	carry  []byte   // non-nil: prefix {b,ff} of the carry family
 	addrs  [][]byte // idx 0 and 1
 	addrs2 [][]byte // idx 2 (2 bytes)
 	bins   []uint64
@@ -109,6 +110,16 @@ func genPools(rng *rand.Rand) *pools {
 	}
 	if rng.Intn(3) == 0 {
 		p.addrs = append(p.addrs, []byte{0xff}, []byte{0xff, 0xff})
+	}
+	if rng.Intn(3) == 0 {
+		// a "carry family": keys below the prefix {b,ff} together with the key {b+1} (and
+		// {b+1,00}), i.e. the first keys after everything that carries the prefix
+		b := byte(rng.Intn(5))
+		p.carry = []byte{b, 0xff}
+		p.addrs = append(p.addrs, []byte{b, 0xff}, []byte{b, 0xff, alphabet[rng.Intn(len(alphabet))]}, []byte{b + 1})
+		if rng.Intn(2) == 0 {
+			p.addrs = append(p.addrs, []byte{b + 1, 0x00})
+		}
 	}
 	for i := 0; i < 5; i++ {
 		p.addrs2 = append(p.addrs2, []byte{alphabet[rng.Intn(len(alphabet))], alphabet[rng.Intn(len(alphabet))]})
@@ -517,6 +528,10 @@ func (s *hist) hasMultiAndFill(x int) {
 }
 
 func (s *hist) randomPrefix(x int) []byte {
+	if s.p.carry != nil && x == 0 && s.rng.Intn(3) == 0 {
+		s.run.Stat("prefix_queries_on_a_carry_family", 1)
+		return append([]byte{}, s.p.carry...)
+	}
 	switch r := s.rng.Intn(10); {
 	case r < 4:
 		return nil
@@ -984,6 +999,15 @@ func (s *hist) target(x int) shed.Item {
 
 func (s *hist) step() {
 	x := s.rng.Intn(3)
+	if s.p.carry != nil && s.rng.Intn(12) == 0 {
+		// keep the carry family populated: {b,ff}, {b,ff,*} and {b+1}
+		for _, a := range s.p.addrs {
+			if bytes.HasPrefix(a, s.p.carry) || (len(a) >= 1 && a[0] == s.p.carry[0]+1) {
+				s.put(0, shed.Item{Address: a, Data: []byte{1}}, false)
+			}
+		}
+		return
+	}
 	switch r := s.rng.Intn(100); {
 	case r < 22:
 		s.put(x, s.p.item(s.rng, x), false)
